@@ -63,4 +63,18 @@ Proof.
   - subst. ring.
 Qed.
 
+Lemma mul_nz a b : a <> o0 -> b <> o0 -> a *! b <> o0.
+Proof.
+  intros Ha Hb E. apply Ha.
+  assert (H : a = (a *! b) /! b) by (field; exact Hb).
+  rewrite H, E. field. exact Hb.
+Qed.
+
+Lemma opow_nz a n : a <> o0 -> opow a n <> o0.
+Proof.
+  intro Ha. induction n as [|n IH]; cbn [opow].
+  - destruct Fth as [_ H _ _]. exact H.
+  - apply mul_nz; assumption.
+Qed.
+
 End NumLemmas.
